@@ -316,13 +316,26 @@ func PanicSite(stack string) string {
 	return first
 }
 
-// TrimStack shortens a stack dump for messages.
+// TrimStack shortens a stack dump for messages: function names of library frames only.
 func TrimStack(s string) string {
-	lines := strings.Split(s, "\n")
-	if len(lines) > 24 {
-		lines = lines[:24]
+	var out []string
+	for _, l := range strings.Split(s, "\n") {
+		if strings.HasPrefix(l, "\t") || l == "" || strings.HasPrefix(l, "goroutine ") {
+			continue
+		}
+		if !strings.Contains(l, "intel/fastgo/compress") && !strings.Contains(l, "intel/fastgo/internal") {
+			continue
+		}
+		if k := strings.LastIndex(l, "("); k > 0 {
+			l = l[:k]
+		}
+		l = strings.TrimPrefix(l, "github.com/intel/fastgo/")
+		out = append(out, l)
+		if len(out) >= 6 {
+			break
+		}
 	}
-	return strings.Join(lines, "\n")
+	return "  stack: " + strings.Join(out, " <- ")
 }
 
 func (e *Explorer) account(x *Exec) {
